@@ -248,6 +248,35 @@ def do_rf(c):
     return res
 
 
+def do_rfctr(c):
+    """Frame-counter sweep through the parsed-packet paths: for fc in range(c["n"]) build the frame of case c with
+    that counter, encrypt, re-dissect the emitted bytes, decrypt. Returns the counters whose round trip is not
+    (frame, True) with the original bytes (first failures with detail)."""
+    key = H(c["key"])
+    bad, detail = [], []
+    for fc in range(c.get("start", 0), c.get("start", 0) + c["n"]):
+        cc = dict(c, fc=fc)
+        try:
+            p = rf_wrap(cc, rf_nwk(cc))
+            orig = bytes(p)
+            e = RF4CECryptoManager(key).encrypt(rf_wrap(cc, rf_nwk(cc)), **rf_args(cc))
+            if isinstance(e, tuple):
+                raise ValueError("encrypt returned a tuple")
+            w = bytes(e)
+            d, ok = RF4CECryptoManager(key).decrypt(rf_redissect(cc, w), **rf_args(cc, "dec"))
+            db = bytes(d)
+            cut = 4 + (2 if c["mode"] == "fcs" else 0)
+            good = ok and db[:len(db) - cut] == orig[:len(orig) - cut] and len(db) == len(orig)
+            obs = {"enc": w.hex(), "dec": [db.hex(), bool(ok)]}
+        except Exception as ex:  # noqa
+            good, obs = False, {"exc": type(ex).__name__}
+        if not good:
+            bad.append(fc)
+            if len(detail) < 3:
+                detail.append({"fc": fc, "observed": obs})
+    return {"bad": bad, "detail": detail, "n": c["n"]}
+
+
 # ----------------------------------------------------------------------------- Unifying
 # case {"dev":int,"ft":int,"hid":hex7,"unk":int,"ctr":int,"unused":hex7,"key":hex,"cks":int|null}
 
@@ -310,7 +339,8 @@ def main():
     req = json.load(sys.stdin)
     res = {"lw": [do_lw(c) for c in req.get("lw", [])],
            "rf": [do_rf(c) for c in req.get("rf", [])],
-           "un": [do_un(c) for c in req.get("un", [])]}
+           "un": [do_un(c) for c in req.get("un", [])],
+           "rfctr": [do_rfctr(c) for c in req.get("rfctr", [])]}
     if req.get("misc"):
         res["misc"] = do_misc()
     print("RESULT " + json.dumps(res))
